@@ -410,8 +410,8 @@ pub fn run(tier: Tier) -> i32 {
             let case = json!({"records": rs.iter().map(|r| to_json(&V::Dict(r.clone()))).collect::<Vec<_>>()});
             match guarded(|| check_grid_build(&rs)) {
                 Ok(Ok(())) => local.outcome("ok"),
-                Ok(Err((stage, d))) => local.fail(&format!("{stage}:wide"), case, d),
-                Err(p) => local.fail("panic:grid-build:wide", case, p),
+                Ok(Err((stage, d))) => local.fail(&stage, case, d),
+                Err(p) => local.fail("panic:grid-build", case, p),
             }
         }
     });
